@@ -709,13 +709,21 @@ pub fn graph_replay<S: Sut>(gen_path: &str, out: &mut Out, hist: &mut Out, mut m
                             work.extend(p);
                         }
                     } else if rep == 0 && altw && (st.alt_states < opts.max_alt) {
-                        let v = alts.entry(postkey.clone()).or_default();
-                        if v.is_empty() {
-                            hist.put(&json!({"hid": next_hid, "parent": hid, "op": op}));
-                            v.push(Node { sut, hid: next_hid, kind: altkind });
-                            next_hid += 1;
+                        // two lineages of second representatives per state: the first object left behind by a
+                        // failed call / clear (shallow history) and the latest one (deep history)
+                        let k0 = format!("0#{}", postkey);
+                        let k1 = format!("1#{}", postkey);
+                        hist.put(&json!({"hid": next_hid, "parent": hid, "op": op}));
+                        if !alts.contains_key(&k0) {
+                            alts.insert(k0, vec![Node { sut, hid: next_hid, kind: altkind }]);
                             st.alt_states += 1;
+                        } else {
+                            if !alts.contains_key(&k1) {
+                                st.alt_states += 1;
+                            }
+                            alts.insert(k1, vec![Node { sut, hid: next_hid, kind: altkind }]);
                         }
+                        next_hid += 1;
                     }
                 }
             }
@@ -740,7 +748,9 @@ pub fn graph_replay<S: Sut>(gen_path: &str, out: &mut Out, hist: &mut Out, mut m
             if t["k"] != "t" {
                 continue;
             }
-            let prekey = t["pre"].to_string();
+            let prekey0 = t["pre"].to_string();
+            for lineage in ["0", "1"] {
+            let prekey = format!("{}#{}", lineage, prekey0);
             if !cand.contains(&prekey) {
                 continue;
             }
@@ -777,12 +787,13 @@ pub fn graph_replay<S: Sut>(gen_path: &str, out: &mut Out, hist: &mut Out, mut m
             if panicked {
                 continue;
             }
-            let postkey = t["post"].to_string();
+            let postkey = format!("{}#{}", lineage, t["post"]);
             if !alts.contains_key(&postkey) && st.alt_states < opts.max_alt {
                 hist.put(&json!({"hid": next_hid, "parent": nhid, "op": op}));
                 alts.insert(postkey, vec![Node { sut, hid: next_hid, kind: nkind }]);
                 next_hid += 1;
                 st.alt_states += 1;
+            }
             }
         }
         expanded.extend(cand);
